@@ -1,18 +1,75 @@
 PROP = {
     "lean_modules": ["GunYu.Props.C06"],
     "audit_namespaces": ["GunYu.Props.C06"],
-    "required_theorems": [],
+    "required_theorems": [
+        "GunYu.Props.C06.outcome_continue_or_full",
+        "GunYu.Props.C06.psync_offset_convention",
+        "GunYu.Props.C06.never_beyond_stored",
+        "GunYu.Props.C06.ids_within_source",
+        "GunYu.Props.C06.no_cache_reuse_when_cleared",
+        "GunYu.Props.C06.cache_consistent_after",
+        "GunYu.Props.C06.delivers_something",
+        "GunYu.Props.C06.storedCompat_needed",
+    ],
     "expected_facts": {},
-    "harness": [{"name": "C06", "pkg": "./syncer/", "test": "TestVerifC06", "timeout_quick": "10m", "timeout_thorough": "40m"}],
+    "harness": [{"name": "C06", "pkg": "./syncer/", "test": "TestVerifC06",
+                 "timeout_quick": "10m", "timeout_thorough": "40m"}],
     "driver": "drv_C06",
-    "rule": "",
-    "trusted": [],
-    "assumptions": [],
+    "rule": "one op per (re)connection: the real RedisInput.run (fetchInput, syncMeta, pSync/SendPSync, syncData, readChannel, "
+            "sendOutput) with the real StoreChannel (pkg/store, temp dir) or MemoryChannel runs against a RESP source double on "
+            "127.0.0.1 (PING, INFO replication, REPLCONF, PSYNC with Redis's masterTryPartialResynchronization rule, +CONTINUE [id], "
+            "+FULLRESYNC id off, optional LF heartbeats, $len snapshot, stream bytes), a recording Output and a recording proxy "
+            "around the Channel. Generated triples: source {no previous id | failover with previous id and switch offset} x backlog "
+            "{from 1 | window | empty | lost}; stored position {'?' | current id | previous id | unknown id} x offset drawn from the "
+            "interesting points (cache left/mid/right +-1, snapshot left/left-size, switch offset +-1, backlog first +-1, master +-1, "
+            "0, random); cache {no label | label only | snapshot | log | snapshot+log} x label {current | previous | other} x range "
+            "around the same points (incl. beyond the switch offset / beyond the master), built through the channel's own writers "
+            "with PRF histories; disk caches optionally closed and reopened (process restart), small log segment sizes (rotation); "
+            "1/3 of the cases continue with 1-2 follow-up connections in the same process (source advanced, backlog trimmed or lost, "
+            "stored position moved). Compared per op with the Lean model: the cache's query API before the round, branch, PSYNC line "
+            "received, reply, full/del/run id, writer and reader start, cache label/snapshot/range/latest afterwards, number of bytes "
+            "delivered and the first 64. Monitor (independent Go oracle): stream => CONTINUE granted, start == stored offset, stored "
+            "id served by the source, ALL delivered bytes == hist(id1) from the stored offset, stored prefix in the current history; "
+            "snapshot => complete and either the one just sent (at the announced offset/size) or the cached one of a history agreeing "
+            "below its offset and only with CONTINUE and without clearing; request offset == writer start + 1; log writer after "
+            "FULLRESYNC at the announced offset; cache relabelled to id1 and read back == hist(id1). "
+            "distinct_nontrivial = distinct (backend, stored id class, cache id class, cache shape, stored-vs-cache, backlog, branch, "
+            "full, delivered) combinations",
+    "trusted": [
+        "Redis's PSYNC admission rule (replication.c masterTryPartialResynchronization / syncCommand) as transcribed in "
+        "Model/Psync.lean `admitPsync` and, independently, in the Go source double `vf6Source.admit`; +CONTINUE/+FULLRESYNC/$len framing",
+        "source double, recording output and channel proxy in harness/overlay/syncer/vf_c06_test.go",
+    ],
+    "assumptions": [
+        "CacheOK: bytes the cache holds under its run id are that id's history on the range it reports (provided by C05/C08); "
+        "CacheWF: a cached log starts at the cached snapshot's offset and data exists only under a real id (D15's gap image is C08's)",
+        "StoredCompat: a resume position stored under the previous id while the cache is already labelled with the current id lies "
+        "in the shared prefix. syncMeta compares the stored id only with the set {id1,id2}; theorem storedCompat_needed shows the "
+        "conclusion fails without it; the harness generates the combination, compares it with the model and counts it "
+        "(storedcompat_excluded) instead of judging it. The tool re-keys the target's label in the same syncMeta call that relabels "
+        "the cache, so it does not produce the state from consistent bookkeeping (stale/re-keyed checkpoints are C17's subject)",
+        "single cache directory per input (the disk store can hold directories of several ids; only the one matching the source ids "
+        "first is modelled); ids compare case-sensitively (Redis uses strcasecmp on hex ids)",
+        "syncMeta/SendPSync/channel query API are hand-written models tied by correspondence (not regenerated)",
+        "a run that ends before anything is delivered (store.NewRdbReader losing the race against the snapshot writer's rename, "
+        "seen ~1/500 disk full syncs) is repeated from scratch by the harness (stat aborted_attempts_repeated); a deterministic abort "
+        "survives the repeats and is reported as run-aborted",
+    ],
     "partial": [],
 }
 
 MANIFEST = {
-    "text": "",
-    "note": "",
-    "technique": "",
+    "text": "Lean theorems over ALL source states, stored positions, cache descriptions (both backends) and histories: after syncMeta + "
+            "writer/reader start the output receives either log bytes starting exactly at the stored offset, all equal to the current "
+            "history, with CONTINUE granted and the consumed prefix in the current history, or one complete snapshot (the source's on "
+            "FULLRESYNC, a cached one only under CONTINUE without clearing) of a history agreeing below its offset; request offset = "
+            "writer start + 1; never a later start; run id and cache label always the source's current id; nothing of the old cache "
+            "survives clearLocal/FULLRESYNC; the cache invariant is re-established for the next connection; the run never aborts. "
+            "The model (syncMeta decision table, SendPSync, channel query/maintenance API of both backends, Redis admission rule) is "
+            "tied to the code by differential correspondence of the real RedisInput.run against a RESP source double, plus an "
+            "independent end-to-end byte monitor.",
+    "note": "trusted: Lean kernel (propext, Classical.choice, Quot.sound only), Redis PSYNC admission rule transcription, source double; "
+            "assumes CacheOK (C05/C08) and StoredCompat (stored label vs cache label, shown necessary)",
+    "technique": "Lean 4 proof (decision-table case analysis into three outcome specifications, omega) + differential correspondence "
+                 "over loopback + end-to-end monitor",
 }
